@@ -218,8 +218,9 @@ def build_leaf(nid, k, ctx, name):
             ns = rest[1].rsplit("/", 1)[0]
         b = B.CheckBlackboardVariableValues(name=name, checks=checks, operator=LOGIC[rest[0]], namespace=ns)
     elif kind == "set":
-        b = B.SetBlackboardVariable(name=name, variable_name=varname(k[1], k[2]), variable_value=val_parse(k[3]),
-                                    overwrite=k[4] == "1")
+        # a generator, so that every tick writes a FRESH object (no aliasing of one mutable value across ticks)
+        b = B.SetBlackboardVariable(name=name, variable_name=varname(k[1], k[2]),
+                                    variable_value=(lambda t=k[3]: val_parse(t)), overwrite=k[4] == "1")
     elif kind == "unset":
         b = B.UnsetBlackboardVariable(name=name, key=k[1])
     elif kind == "b2s":
@@ -263,7 +264,7 @@ def build(spec, ctx, names=None):
     """spec -> real behaviour tree (every node registered in ctx and tick-wrapped)"""
     names = names or {}
     t, nid = spec[0], spec[1]
-    name = names.get(nid, "n%d" % nid)
+    name = names.get(nid, "b%d" % (nid % 2))    # display names collide on purpose
     if t == "L":
         b = build_leaf(nid, spec[2], ctx, name)
     elif t in ("Q", "S"):
@@ -421,7 +422,7 @@ class BtRun(object):
                 return self.mgr_config(toks)
             elif op == "mtick":
                 return self.mtick(toks)
-            elif op in ("setup", "shutdown"):
+            elif op in ("setup", "setupt", "shutdown"):
                 return self.setup_shutdown(op)
             else:
                 return ["bad-op"]
@@ -553,9 +554,12 @@ def _setup_shutdown(self, op):
             b.setup, b.shutdown = setup, shutdown
             b._verif_su = True
     log_ref[0] = log
-    if op == "setup":
+    if op in ("setup", "setupt"):
         try:
-            self.tree.setup(x=1)
+            if op == "setupt":
+                self.tree.setup(timeout=30.0, x=1)     # the signal / timer guarded path
+            else:
+                self.tree.setup(x=1)
         except RuntimeError:
             self.dead = True
             return ["U " + " ".join(log), "ERR RuntimeError"]
@@ -737,6 +741,26 @@ def build_idiom(toks, ctx):
             else py_trees.common.OneShotPolicy.ON_SUCCESSFUL_COMPLETION
         return py_trees.idioms.oneshot(behaviour=plain(spec), name="oneshot", variable_name=varname(key, path),
                                        policy=pol)
+    if kind == "eitheror2":
+        n = int(rest[0])
+        rest = rest[1:]
+        conds = []
+        for _ in range(n):
+            key, path, op, v = rest[:4]
+            rest = rest[4:]
+            conds.append((key, path, op, v))
+        subs = []
+        while rest:
+            spec, rest = parse_spec(rest)
+            subs.append(plain(spec))
+
+        def mk(subtrees):
+            cs = [py_trees.common.ComparisonExpression(variable=varname(k, p), value=val_parse(v), operator=OPS[o])
+                  for k, p, o, v in conds]
+            return py_trees.idioms.either_or(conditions=cs, subtrees=subtrees, name="either_or")     # default namespace
+        return py_trees.composites.Parallel(
+            name="both", policy=py_trees.common.ParallelPolicy.SuccessOnAll(synchronise=False),
+            children=[mk(subs[:n]), mk(subs[n:])])
     if kind == "eitheror":
         ns, n = rest[0], int(rest[1])
         rest = rest[2:]
@@ -791,8 +815,18 @@ def run_bt(scn):
         assert rest == []
         run = BtRun(spec, scn.meta.get("names"))
     out = ["SPEC " + spec_str(spec)]
-    enc = lambda l: l.replace("\n", "^").replace("\t", "!")  # noqa: E731  (keys derived from multi-line names)
+    import re as _re
+    seen = []
+
+    def canon(m):
+        if m.group(0) not in seen:
+            seen.append(m.group(0))
+        return "U%d" % (seen.index(m.group(0)) + 1)
+    uuid_re = _re.compile(r"[0-9a-f]{8}_[0-9a-f]{4}_[0-9a-f]{4}_[0-9a-f]{4}_[0-9a-f]{12}")
+    # keys derived from multi-line names; unique ids inside default namespaces are numbered in order of appearance
+    enc = lambda l: uuid_re.sub(canon, l.replace("\n", "^").replace("\t", "!"))  # noqa: E731
     for op in scn.ops:
         out.append("> " + op)
         out += run.step(op)
-    return [enc(l) for l in out]
+    out = [enc(l) for l in out]
+    return [("W " + " ".join(sorted(l[2:].split()))) if l.startswith("W ") else l for l in out]
